@@ -145,6 +145,31 @@ class CallMixin:
         if env is None:
             self.raise_exc(st, "TypeError", node)
             return []
+        if any("lru_cache" in d or d in ("cache", "functools.cache") for d in info.decorators):
+            # memoisation: the cache compares key arguments with == / hash.  The executor
+            # treats lru_cache as the identity decorator, which is sound only if equal keys
+            # are indistinguishable to the function: an argument that is an instance of a
+            # class with its own __eq__ (TimePoint, Duration: equal by instant / length,
+            # whatever the representation, zone or unit spelling) is not - obligation.
+            for pn, av in env.items():
+                for x in (av if isinstance(av, (tuple, list)) else (av,)):
+                    if isinstance(x, Ref) and st.obj(x).kind == "obj" and any(
+                            "__eq__" in getattr(k, "methods", {})
+                            for k in st.obj(x).cls.mro()):
+                        self.oblige("memo[%s].key-equality-is-identity(%s: %s)@%d" % (
+                            info.key, pn, st.obj(x).cls.name,
+                            getattr(node, "lineno", 0)), st, False, kind="memo")
+        nm = info.qualname.split(".")[-1]
+        if self.depth == 0 and nm in getattr(self, "abstract_calls", ()) and \
+                info.cls is not None and self.cur_func is not info:
+            ac = self.contracts.get("%s:%s.abstract.%s" % (info.module, info.cls.name, nm))
+            if ac is None:
+                raise ContractBindingError("no abstract stand-in for " + info.key)
+            self.stats["contracts_used"].add(ac.key)
+            cenv = dict(env)
+            cenv["__module__"] = info.module
+            (s_, res) = self.ev1(self.parse(ac.returns), cenv, st)
+            return [(st, res)]
         c = self.contracts.get(info.key)
         if info.is_generator and not (self.cur_func is info and self.depth == 0):
             return self.call_generator(info, env, st, node)
